@@ -44,6 +44,10 @@ Theorem C10_parent_exists : forall c Q n s,
 Proof. exact shape_parent_exists. Qed.
 Print Assumptions C10_parent_exists.
 
+Theorem C10_capacity_plugin_accepts : forall c Q, ShapeInv c Q -> capacity_ready Q = true.
+Proof. exact shape_capacity_ready. Qed.
+Print Assumptions C10_capacity_plugin_accepts.
+
 (* guarantee <= deserved <= capability within a queue, in the form the code enforces *)
 Theorem C10_queue_order : forall s d, QueueOk s ->
   amount (qguar s) d <= amount (qdes s) d /\
